@@ -461,7 +461,7 @@ func runCapGuard(c *core.Ctx) {
 	ev := evo.Site()
 	fr := an.SymFrame("len(recv.evs)", "recv.Cap")
 	fr.Domain = nil
-	s, n, ok := fr.ReachSet(add, ev.Block(), nil, nil)
+	s, n, ok := fr.OccReachSet(add, *evo)
 	c.CountPaths(n)
 	c.Check(ok && s.Equal(an.Range(1, an.PosInf)), nil, fname(c, add), "evict/guard", P.Pos(ev.Pos()),
 		"eviction executes iff len(evs) ∈ "+s.Format("Cap"), "eviction executes when len(evs) ∈ "+s.Format("Cap")+", want (Cap,+∞): the store can exceed its capacity or evict too early")
@@ -471,6 +471,11 @@ func runCapGuard(c *core.Ctx) {
 		if _, ok := fr.Atom(g.V, g.True); ok {
 			capBlock = g.At
 		}
+	}
+	// the test may sit inside a private eviction helper: then passing the helper's call
+	// site is passing the test
+	if capBlock == nil && len(evo.Chain) > 0 {
+		capBlock = ev.Block()
 	}
 	okDom := capBlock != nil
 	if okDom {
